@@ -82,6 +82,27 @@ EXTRA_MUST_WORK = [
     "select a from t1 where b > (select max(y) from t2 where t2.x = t1.a)",
     "select a from t1 where b = (select min(q) from t3 where p = a group by p)",
     "select a from t1 where not exists (select * from t3 where t3.p = t1.a and t3.q > 1)",
+    # predicates the optimizer folds to FALSE put an `empty` node into the plan: every operator above
+    # it (ordering, limits, joins on either side, aggregation, set operations) must still build and run
+    "select a from t1 where false",
+    "select a from t1 where b > 50 and b < 30 order by a",
+    "select a, b from t1 where b > 50 and b < 30 order by a desc limit 2",
+    "select a from t1 where 1 = 2 limit 3 offset 1",
+    "select t1.a, t2.x from t1 join t2 on t1.a = t2.x where t2.y > 500 and t2.y < 100",
+    "select t1.a, t2.x from t1 left join t2 on t1.a = t2.x and false",
+    "select t1.a, t2.x from t1 left join t2 on t1.a = t2.x where t1.b > 50 and t1.b < 30 order by t1.a",
+    "select t1.a, t2.x from t1 right join t2 on t1.a = t2.x and t1.b > 50 and t1.b < 30",
+    "select t1.a, t2.x from t1 full join t2 on t1.a < t2.x and 1 = 2",
+    "select count(*), sum(a) from t1 where b > 50 and b < 30",
+    "select b, count(*) from t1 where b > 50 and b < 30 group by b order by b",
+    "select distinct a from t1 where false order by a",
+    "select a from t1 where a in (select x from t2 where y > 500 and y < 100)",
+    "select a from t1 where exists (select * from t2 where false)",
+    # a bare boolean column as a condition, alone and below other operators
+    "select p from t3 where r",
+    "select p from t3 where r order by p limit 1",
+    "select t1.a from t1 join t3 on t3.r",
+    "select q, count(*) from t3 group by q having min(p) > 0",
 ]
 
 
